@@ -348,14 +348,18 @@ def implsCanon : List (Bytes × FilterImpl) :=
 
 /-! ## Canonical form of a sort result (`sortc` line of the `arrf` stream) -/
 
-/-- the sort key of a value, as text: tied values of a homogeneous array have the same text -/
+/-- an exact number as text -/
+def ratText (num : Int) (den : Nat) : String := s!"#{num}/{den}"
+
+/-- the sort key of a value, as text: tied values of a homogeneous array have the same text
+(`Proofs/C15.sort_canonical`) -/
 def canonKey (v : GoVal) : String :=
   match Cmp.toLiq v with
   | .nil => "n"
   | .bool true => "t"
   | .bool false => "f"
-  | .int _ n => s!"#{n}/1"
-  | .flt _ q => s!"#{q.num}/{q.den}"
+  | .int _ n => ratText n 1
+  | .flt _ q => ratText q.num q.den
   | .str s => "s" ++ hexEncode s
   | _ => "?"
 
